@@ -2,7 +2,9 @@
 //! scripts) driven in-process, and construction of fully valid blocks on top
 //! of any node's tip (cellbase reward, DAO field, epoch, chain-root extension
 //! are computed with the node's own snapshot, the way a miner's template is).
-use ckb_app_config::{DBConfig, StoreConfig};
+use ckb_app_config::{BlockAssemblerConfig, DBConfig, NetworkConfig, TxPoolConfig};
+use ckb_network::{network::TransportType, Flags, NetworkController, NetworkService, NetworkState};
+use ckb_tx_pool::TxPoolController;
 use ckb_chain::{ChainController, ChainServiceScope, LonelyBlock, VerifyResult};
 use ckb_chain_spec::consensus::{build_genesis_epoch_ext, Consensus, ConsensusBuilder, ProposalWindow};
 use ckb_dao::DaoCalculator;
@@ -39,6 +41,10 @@ pub struct ChainCfg {
     pub permanent_difficulty: bool,
     pub genesis_difficulty: u64,
     pub epoch_duration_target: u64,
+    /// lowered consensus limits (None = defaults) so that the template limits bind
+    pub max_block_bytes: Option<u64>,
+    pub max_block_cycles: Option<u64>,
+    pub max_block_proposals_limit: Option<u64>,
 }
 
 impl Default for ChainCfg {
@@ -51,6 +57,9 @@ impl Default for ChainCfg {
             permanent_difficulty: false,
             genesis_difficulty: 1000,
             epoch_duration_target: 4 * 60 * 60,
+            max_block_bytes: None,
+            max_block_cycles: None,
+            max_block_proposals_limit: None,
         }
     }
 }
@@ -110,12 +119,21 @@ pub fn make_consensus(cfg: &ChainCfg) -> (Consensus, Vec<TransactionView>) {
         cfg.epoch_duration_target,
         (1, 40),
     );
-    let consensus = ConsensusBuilder::new(genesis, epoch_ext)
+    let mut cb = ConsensusBuilder::new(genesis, epoch_ext)
         .cellbase_maturity(EpochNumberWithFraction::new(0, 0, 1))
         .tx_proposal_window(ProposalWindow(cfg.window.0, cfg.window.1))
         .permanent_difficulty_in_dummy(cfg.permanent_difficulty)
-        .epoch_duration_target(cfg.epoch_duration_target)
-        .build();
+        .epoch_duration_target(cfg.epoch_duration_target);
+    if let Some(b) = cfg.max_block_bytes {
+        cb = cb.max_block_bytes(b);
+    }
+    if let Some(c) = cfg.max_block_cycles {
+        cb = cb.max_block_cycles(c);
+    }
+    if let Some(l) = cfg.max_block_proposals_limit {
+        cb = cb.max_block_proposals_limit(l);
+    }
+    let consensus = cb.build();
     (consensus, funds)
 }
 
@@ -136,14 +154,50 @@ impl Node {
         Node { shared, scope: Some(scope), dir: None }
     }
 
+    /// in a temporary DB, with the tx-pool service started and a block assembler
+    /// paying to the always-success lock
+    pub fn with_pool(consensus: &Consensus, pool_cfg: TxPoolConfig, update_interval_millis: u64) -> Node {
+        let (_, _, script) = always_success_cell();
+        let hash_type: ckb_types::core::ScriptHashType = script.hash_type().try_into().expect("hash type");
+        let ba = BlockAssemblerConfig {
+            code_hash: script.code_hash().unpack(),
+            args: ckb_jsonrpc_types::JsonBytes::from_bytes(script.args().raw_data()),
+            hash_type: hash_type.into(),
+            message: Default::default(),
+            use_binary_version_as_message_prefix: false,
+            binary_version: "HX".to_string(),
+            update_interval_millis,
+            notify: vec![],
+            notify_scripts: vec![],
+            notify_timeout_millis: 800,
+        };
+        let (shared, mut pack) = SharedBuilder::with_temp_db()
+            .consensus(consensus.clone())
+            .tx_pool_config(pool_cfg)
+            .block_assembler_config(Some(ba))
+            .build()
+            .expect("build shared");
+        let network = dummy_network(&shared);
+        pack.take_tx_pool_builder().start(network);
+        let scope = ChainServiceScope::new(pack.take_chain_services_builder());
+        while scope.chain_controller().is_verifying_unverified_blocks_on_startup() {
+            std::thread::sleep(std::time::Duration::from_millis(1));
+        }
+        Node { shared, scope: Some(scope), dir: None }
+    }
+
+    pub fn pool(&self) -> &TxPoolController {
+        self.shared.tx_pool_controller()
+    }
+
     /// on disk (can be re-opened): `dir/db`, optional freezer in `dir/ancient`
-    pub fn on_disk(consensus: &Consensus, dir: &Path, store_config: StoreConfig) -> Node {
+    pub fn on_disk(consensus: &Consensus, dir: &Path, with_freezer: bool) -> Node {
         std::fs::create_dir_all(dir.join("header_map")).unwrap();
         let db_config = DBConfig { path: dir.join("db"), ..Default::default() };
+        let ancient = if with_freezer { Some(dir.join("ancient")) } else { None };
         let handle = ckb_async_runtime::new_background_runtime();
-        let (shared, mut pack) = SharedBuilder::new("hx", dir, &db_config, None, handle, consensus.clone())
+        let (shared, mut pack) = SharedBuilder::new("hx", dir, &db_config, ancient, handle, consensus.clone())
             .expect("open db")
-            .store_config(store_config)
             .header_map_tmp_dir(Some(dir.join("header_map")))
             .build()
             .expect("build shared");
@@ -167,10 +221,6 @@ impl Node {
         self.chain().blocking_process_block(Arc::new(block.clone()))
     }
 
-    pub fn process_with_switch(&self, block: &BlockView, switch: ckb_verification_traits::Switch) -> VerifyResult {
-        self.chain().blocking_process_block_with_switch(Arc::new(block.clone()), switch)
-    }
-
     /// asynchronous delivery; the receiver gets the verdict when (if) the block is processed
     pub fn deliver(&self, block: &BlockView) -> mpsc::Receiver<VerifyResult> {
         let (tx, rx) = mpsc::channel();
@@ -187,6 +237,9 @@ impl Node {
 
     /// stop the chain services and release the DB
     pub fn stop(mut self) {
+        if self.shared.tx_pool_controller().service_started() {
+            self.shared.tx_pool_controller().verif_unregister();
+        }
         if let Some(scope) = self.scope.take() {
             drop(scope);
         }
@@ -198,8 +251,6 @@ pub struct BlockPlan {
     pub proposals: Vec<ProposalShortId>,
     pub txs: Vec<TransactionView>,
     pub uncles: Vec<UncleBlockView>,
-    /// appended to the body after `txs` but left out of the DAO computation (transactions that do not resolve)
-    pub extra_unresolvable: Vec<TransactionView>,
     /// milliseconds after the parent's timestamp (>= 1)
     pub ts_delta: u64,
     /// distinguishes siblings with otherwise equal content
@@ -265,7 +316,6 @@ pub fn build_block_builder(builder: &Node, plan: &BlockPlan) -> BlockBuilder {
         .dao(dao)
         .transaction(cellbase)
         .transactions(plan.txs.clone())
-        .transactions(plan.extra_unresolvable.clone())
         .proposals(plan.proposals.clone())
         .uncles(plan.uncles.clone());
     if consensus.rfc0044_active(parent.epoch().number()) {
@@ -281,18 +331,13 @@ pub fn build_block_builder(builder: &Node, plan: &BlockPlan) -> BlockBuilder {
 
 /// A transaction spending the given always-success cells into `n_out` outputs, paying `fee`.
 pub fn spend(inputs: &[(OutPoint, u64)], n_out: usize, fee: u64, tag: u64) -> TransactionView {
-    spend_since(inputs, n_out, fee, tag, 0)
-}
-
-/// `since` is put on the first input
-pub fn spend_since(inputs: &[(OutPoint, u64)], n_out: usize, fee: u64, tag: u64, since: u64) -> TransactionView {
     let (_, _, script) = always_success_cell();
     let total: u64 = inputs.iter().map(|(_, c)| *c).sum();
     let each = (total - fee) / n_out as u64;
     let rem = (total - fee) % n_out as u64;
     let mut b = TransactionBuilder::default().cell_dep(always_success_dep());
-    for (i, (op, _)) in inputs.iter().enumerate() {
-        b = b.input(CellInput::new(op.clone(), if i == 0 { since } else { 0 }));
+    for (op, _) in inputs {
+        b = b.input(CellInput::new(op.clone(), 0));
     }
     for i in 0..n_out {
         let cap = if i == 0 { each + rem } else { each };
@@ -325,4 +370,79 @@ pub fn note_history(h: &[serde_json::Value]) {
 }
 pub fn last_history() -> serde_json::Value {
     LAST_HISTORY.with(|l| l.borrow().clone())
+}
+
+/// a network controller nobody talks to (the tx-pool service wants one)
+pub fn dummy_network(shared: &Shared) -> NetworkController {
+    static N: std::sync::atomic::AtomicUsize = std::sync::atomic::AtomicUsize::new(0);
+    let dir = hx_common::out_dir("poolchain-net").join(format!(
+        "net-{}-{}",
+        std::process::id(),
+        N.fetch_add(1, std::sync::atomic::Ordering::SeqCst)
+    ));
+    let _ = std::fs::create_dir_all(&dir);
+    let config = NetworkConfig {
+        max_peers: 19,
+        max_outbound_peers: 5,
+        path: dir,
+        ping_interval_secs: 15,
+        ping_timeout_secs: 20,
+        connect_outbound_interval_secs: 1,
+        discovery_local_address: true,
+        bootnode_mode: true,
+        reuse_port_on_linux: true,
+        ..Default::default()
+    };
+    let network_state = Arc::new(NetworkState::from_config(config).expect("Init network state failed"));
+    NetworkService::new(
+        network_state,
+        vec![],
+        vec![],
+        (shared.consensus().identify_name(), "test".to_string(), Flags::COMPATIBILITY),
+        TransportType::Tcp,
+    )
+    .start(shared.async_handle())
+    .expect("Start network service failed")
+}
+
+/// like `build_block`, but gives up (None) when a planned transaction does not resolve
+pub fn try_build_block(builder: &Node, plan: &BlockPlan) -> Option<BlockView> {
+    let snapshot = builder.shared.snapshot();
+    let consensus = snapshot.consensus();
+    let parent = snapshot.tip_header().clone();
+    let number = parent.number() + 1;
+    let epoch = consensus.next_epoch_ext(&parent, &snapshot.borrow_as_data_loader())?.epoch();
+    let (_, reward) = RewardCalculator::new(consensus, snapshot.as_ref()).block_reward_to_finalize(&parent).ok()?;
+    let cellbase = always_success_cellbase(number, reward.total, consensus);
+    let mut all = vec![cellbase.clone()];
+    all.extend(plan.txs.iter().cloned());
+    let dao = {
+        let provider = TransactionsProvider::new(all.iter());
+        let overlay = OverlayCellProvider::new(&provider, snapshot.as_ref());
+        let mut seen = HashSet::new();
+        let mut rtxs = vec![];
+        for tx in all.iter() {
+            rtxs.push(resolve_transaction(tx.clone(), &mut seen, &overlay, snapshot.as_ref()).ok()?);
+        }
+        let loader = snapshot.borrow_as_data_loader();
+        DaoCalculator::new(consensus, &loader).dao_field(rtxs.iter(), &parent).ok()?
+    };
+    let mut b = BlockBuilder::default()
+        .parent_hash(parent.hash())
+        .number(number)
+        .timestamp(parent.timestamp() + std::cmp::max(1, plan.ts_delta))
+        .epoch(epoch.number_with_fraction(number))
+        .compact_target(epoch.compact_target())
+        .nonce(plan.nonce)
+        .dao(dao)
+        .transaction(cellbase)
+        .transactions(plan.txs.clone())
+        .proposals(plan.proposals.clone())
+        .uncles(plan.uncles.clone());
+    if consensus.rfc0044_active(parent.epoch().number()) {
+        let root = snapshot.chain_root_mmr(parent.number()).get_root().ok()?;
+        let bytes: packed::Bytes = root.calc_mmr_hash().as_bytes().into();
+        b = b.extension(Some(bytes));
+    }
+    Some(b.build())
 }
